@@ -388,7 +388,7 @@ func c16Server(c *fw.Ctx, cs c16Case) {
 		}
 		old := ch.Tokens[len(ch.Tokens)-1]
 		// the renewal; requests sent right behind it still carry the old token, which stays valid until it expires
-		ch.Conn.SetReadDeadline(time.Now().Add(5 * time.Second))
+		ch.Conn.SetReadDeadline(time.Now().Add(40 * time.Second)) // a watchdog, not a verdict on speed
 		if _, err := ch.Open(true, uint32(cs.LifetimeMS)); err != nil {
 			cs.Detail = fmt.Sprintf("renewal %d failed: %v", round, err)
 			c.Violation("c16:server-renewal-failed"+variant, cs.Detail, cs)
@@ -410,7 +410,27 @@ func c16Server(c *fw.Ctx, cs c16Case) {
 			return
 		}
 	}
-	drain(500 * time.Millisecond)
+	// everything sent gets its answer: wait in heartbeats, not in wall-clock time (a loaded machine is slow, not wrong)
+	for b0 := fw.Heartbeats(); fw.Heartbeats()-b0 < 15000; {
+		if err := drain(300 * time.Millisecond); err != nil {
+			break
+		}
+		missing := false
+		for id := range sent {
+			if !answered[id] {
+				missing = true
+				break
+			}
+		}
+		if !missing {
+			break
+		}
+		for _, o := range ch.Log {
+			if o.MsgType == "MSG" && o.ChunkType == 'F' {
+				answered[o.ReqID] = true
+			}
+		}
+	}
 	c.Eval(int64(len(sent)))
 	c.AddExtra("sum_requests_around_renewals", int64(len(sent)))
 	c.Class("server:renewals", int64(renewals))
